@@ -145,6 +145,62 @@ def gate_cases():
     return out
 
 
+def shared_array_cases():
+    """a constant operand that holds the *same ndarray object* as a non-constant operand (x.data — the stop-gradient
+    idiom —, astensor(x, constant=True), tensor(x.data, constant=True, copy=False)) must behave exactly like an
+    independent ndarray with the same values: same result, same flag, same gradient for x"""
+    from mygrad.nnet.layers import conv_nd
+
+    rng = np.random.default_rng(3)
+    sq = lambda: rng.uniform(0.5, 2.0, size=(3, 3))
+    vec = lambda: rng.uniform(0.5, 2.0, size=(4,))
+    ops = [("add", vec, lambda a, c: a + c), ("subtract", vec, lambda a, c: a - c), ("multiply", vec, lambda a, c: a * c),
+           ("divide", vec, lambda a, c: a / c), ("power", vec, lambda a, c: a ** c), ("maximum", vec, lambda a, c: mg.maximum(a, c)),
+           ("minimum", vec, lambda a, c: mg.minimum(a, c)), ("arctan2", vec, lambda a, c: mg.arctan2(a, c)),
+           ("logaddexp", vec, lambda a, c: mg.logaddexp(a, c)), ("matmul", sq, lambda a, c: a @ c),
+           ("einsum-dot", vec, lambda a, c: mg.einsum("i,i->", a, c)), ("einsum-outer", vec, lambda a, c: mg.einsum("i,j->ij", a, c)),
+           ("einsum-mm", sq, lambda a, c: mg.einsum("ij,jk->ik", a, c)), ("einsum-ew", sq, lambda a, c: mg.einsum("ij,ij->ij", a, c)),
+           ("einsum-3", vec, lambda a, c: mg.einsum("i,i,i->", a, c, a)),
+           ("multiply_sequence", vec, lambda a, c: mg.multiply_sequence(a, c, a)), ("add_sequence", vec, lambda a, c: mg.add_sequence(a, c, a)),
+           ("concatenate", vec, lambda a, c: mg.concatenate([a, c]) * mg.concatenate([c, a])), ("stack", vec, lambda a, c: mg.stack([a, c]).prod(axis=0)),
+           ("where", vec, lambda a, c: mg.where(np.array([True, False, True, False]), a, c) * a),
+           ("setitem", vec, lambda a, c: _set(a, c)), ("tensordot", sq, lambda a, c: mg.tensordot(a, c) if hasattr(mg, "tensordot") else (a * c).sum())]
+    shares = [("x.data", lambda x: x.data), ("astensor(x, constant=True)", lambda x: mg.astensor(x, constant=True)),
+              ("tensor(x.data, constant=True, copy=False)", lambda x: mg.tensor(x.data, constant=True, copy=False))]
+    fails = []
+    n = 0
+    for name, mk, f in ops:
+        for sname, share in shares:
+            for swap in (False, True):
+                arr = mk()
+                g = lambda a, c: f(c, a) if swap else f(a, c)
+                try:
+                    x1 = mg.tensor(arr.copy())
+                    y1 = g(x1, np.array(arr, copy=True))  # the reference: an independent ndarray
+                    (y1 * np.arange(1.0, y1.size + 1.0).reshape(y1.shape)).sum().backward()
+                    x2 = mg.tensor(arr.copy())
+                    y2 = g(x2, share(x2))
+                    (y2 * np.arange(1.0, y2.size + 1.0).reshape(y2.shape)).sum().backward()
+                except Exception as e:  # noqa: BLE001
+                    fails.append((name, f"{name} with c = {sname}{' (swapped)' if swap else ''}: raised {type(e).__name__}: {str(e)[:80]}"))
+                    continue
+                n += 1
+                if y1.constant != y2.constant or not np.array_equal(y1.data, y2.data):
+                    fails.append((name, f"{name} with c = {sname}{' (swapped)' if swap else ''}: result or flag differs from the call with an independent ndarray"))
+                elif (x1.grad is None) != (x2.grad is None) or (x1.grad is not None and not np.allclose(x1.grad, x2.grad, rtol=1e-12, atol=1e-12)):
+                    fails.append((name, f"{name} with c = {sname}{' (swapped)' if swap else ''}: d/dx = {None if x2.grad is None else x2.grad.ravel()[:4].tolist()}…, "
+                                        f"with an independent ndarray of the same values {x1.grad.ravel()[:4].tolist()}…"))
+    return n, fails
+
+
+def _set(a, c):
+    if not isinstance(a, mg.Tensor) or a.constant:
+        a, c = c, a  # the written-to tensor is the non-constant one
+    y = +a
+    y[1:3] = c[:2]
+    return y * a
+
+
 def nontrivial(prog):
     nconst = sum(1 for st in prog if st[0] == "leaf" and st[4]) + sum(1 for st in prog if st[0] in ("bin", "un", "sum", "view", "take") and st[-1] is not None)
     nvar = sum(1 for st in prog if st[0] == "leaf" and not st[4])
@@ -161,12 +217,24 @@ def run(ctx: Ctx) -> Outcome:
     for cls, msg in gate_cases():
         out.violations.append(Violation(f"C10|gate|{cls}", msg, {"kind": "gate", "class": cls}))
     out.evaluations += 1
+    nsh, fsh = shared_array_cases()
+    out.evaluations += nsh
+    seen_sh = set()
+    for name, msg in fsh:
+        if name not in seen_sh:
+            seen_sh.add(name)
+            out.violations.append(Violation(f"C10|shared-array-constant|{name}", msg, {"kind": "shared", "name": name}))
+    out.stats["shared_array_constant_cases"] = nsh
     out.assumptions = ["the dtype gate (integer/bool always constant) is also part of C17's lattice model"]
     return out
 
 
 def replay(data) -> bool:
     r = data["replay"]
+    if r.get("kind") == "shared":
+        f = [x for x in shared_array_cases()[1] if x[0] == r["name"]]
+        print(f)
+        return bool(f)
     if r.get("kind") == "gate":
         f = [x for x in gate_cases() if x[0] == r["class"]]
         print(f)
@@ -193,7 +261,10 @@ MANIFEST = {
             "(backward_on_constant_only_clears). The model is run against MyGrad on programs with random flag "
             "assignments; the oracle checks the rule after every statement, that no constant has a .grad, the "
             "exact derivative, and that replacing constant tensors by ndarrays leaves all other gradients "
-            "identical; the dtype gate is enumerated over all admitted dtypes.",
+            "identical; 22 op families are called with a constant operand that holds the very ndarray of a non-constant "
+            "operand (x.data, astensor(x, constant=True), tensor(x.data, constant=True, copy=False); both operand "
+            "orders) and must give x the gradient an independent ndarray gives; the dtype gate is enumerated over "
+            "all admitted dtypes.",
     "note": "Trusted: Lean kernel, standard axioms, correspondence harness. In-place targets keeping their flag is checked by the "
             "oracle and the correspondence, proved only for base targets.",
 }
